@@ -108,6 +108,18 @@ fn main() {
                 v => println!("{v:?}"),
             }
         }
+        "inproc" => {
+            // debugging aid: run the case of a replay file in this process and print the findings
+            exec::install_panic_hook();
+            let text = std::fs::read_to_string(&args[2]).expect("read");
+            let j = json::Json::parse(&text).expect("json");
+            let c = case::Case::from_json(j.get("case").unwrap_or(&j)).expect("case");
+            let rep = oracle::run_case(&c);
+            for f in &rep.findings {
+                println!("{} {} [{}] {}", f.property, f.class, f.fingerprint, f.detail);
+            }
+            println!("{}", rep.to_json().pretty());
+        }
         "selfcheck" => match self_checks() {
             Ok(()) => println!("selfcheck ok"),
             Err(e) => {
